@@ -3,8 +3,15 @@ package c18
 import (
 	"bufio"
 	"bytes"
+	"crypto/ecdsa"
+	"crypto/elliptic"
+	"crypto/rand"
+	"crypto/tls"
+	"crypto/x509"
+	"crypto/x509/pkix"
 	"fmt"
 	"io"
+	"math/big"
 	"net"
 	"sort"
 	"strconv"
@@ -26,7 +33,15 @@ import (
 type dialPlan struct {
 	fail  bool
 	delay time.Duration
+	peer  int // TLS histories: how the peer treats the handshake
 }
+
+const (
+	peerOK      = iota // completes the TLS handshake and serves
+	peerStall          // accepts, reads, never answers
+	peerGarbage        // answers the ClientHello with plaintext
+	peerDrop           // closes at once
+)
 
 // dialErr is the injected dial fault. It carries the stamps of the Dial call
 // that produced it so that the history recorder can split a failed
@@ -34,6 +49,7 @@ type dialPlan struct {
 type dialErr struct {
 	idx         int
 	enter, exit int64
+	timedOut    bool // DialTimeout flavour: the planned delay exceeded the timeout
 }
 
 func (e *dialErr) Error() string { return fmt.Sprintf("c18: injected dial fault #%d", e.idx) }
@@ -56,8 +72,12 @@ type fakeNet struct {
 	max        int
 	base       time.Time
 	withServer bool
+	tls        bool // the client wraps every dialled conn in TLS
 	plans      []dialPlan
 	hseed      uint64
+	errPct     int  // share of faulty responses (oversized, malformed, stalled)
+	allowStall bool // the client has a read timeout: a stalled body ends
+	maxBody    int  // client's MaxResponseBodySize (0: none)
 
 	mu              sync.Mutex
 	live            int
@@ -76,6 +96,8 @@ type fakeNet struct {
 
 	srvMu    sync.Mutex
 	attempts map[int64]int
+	reqRecs  map[int64]reqRec // request id -> conn that carried it (plaintext histories)
+	faulty   map[int64]int    // request id -> kind of faulty response sent
 	srvWG    sync.WaitGroup
 	served   atomic.Int64
 
@@ -89,7 +111,40 @@ type fakeNet struct {
 
 func newFakeNet(max int, base time.Time, withServer bool, plans []dialPlan, hseed uint64) *fakeNet {
 	return &fakeNet{max: max, base: base, withServer: withServer, plans: plans, hseed: hseed,
-		open: map[int]*fconn{}, attempts: map[int64]int{}, vseen: map[string]int{}}
+		open: map[int]*fconn{}, attempts: map[int64]int{}, vseen: map[string]int{}, reqRecs: map[int64]reqRec{}, faulty: map[int64]int{}}
+}
+
+// reqRec says which connection a request was written on, and when.
+type reqRec struct {
+	fc    *fconn
+	stamp int64
+	first bool  // first request on that connection
+	ord   int32 // ordinal of the request on that connection
+	n     int   // transmissions of this id
+}
+
+func (n *fakeNet) requestRecord(id int64) (reqRec, bool) {
+	n.srvMu.Lock()
+	defer n.srvMu.Unlock()
+	r, ok := n.reqRecs[id]
+	return r, ok
+}
+
+func (n *fakeNet) faultyKind(id int64) int {
+	n.srvMu.Lock()
+	defer n.srvMu.Unlock()
+	return n.faulty[id]
+}
+
+// openConns returns the connections the client has not closed.
+func (n *fakeNet) openConns() []*fconn {
+	n.mu.Lock()
+	defer n.mu.Unlock()
+	out := make([]*fconn, 0, len(n.open))
+	for _, c := range n.open {
+		out = append(out, c)
+	}
+	return out
 }
 
 func (n *fakeNet) now() int64 { return int64(time.Since(n.base)) }
@@ -124,7 +179,14 @@ func (n *fakeNet) closeAfterDec() {
 	n.mu.Unlock()
 }
 
-func (n *fakeNet) dial(addr string) (net.Conn, error) {
+// dialTimeout is the HostClient.DialTimeout flavour of dial.
+func (n *fakeNet) dialTimeout(addr string, timeout time.Duration) (net.Conn, error) {
+	return n.dialT(addr, timeout)
+}
+
+func (n *fakeNet) dial(addr string) (net.Conn, error) { return n.dialT(addr, 0) }
+
+func (n *fakeNet) dialT(addr string, timeout time.Duration) (net.Conn, error) {
 	enter := n.now()
 	n.mu.Lock()
 	idx := n.dialSeq
@@ -163,18 +225,22 @@ func (n *fakeNet) dial(addr string) (net.Conn, error) {
 	n.mu.Unlock()
 
 	p := n.plans[idx%len(n.plans)]
-	if p.delay > 0 {
+	timedOut := false
+	if timeout > 0 && p.delay > timeout {
+		time.Sleep(timeout)
+		timedOut = true
+	} else if p.delay > 0 {
 		time.Sleep(p.delay)
 	}
-	if p.fail {
+	if p.fail || timedOut {
 		exit := n.now()
 		n.mu.Lock()
 		n.live--
 		n.dialsFail++
 		n.mu.Unlock()
-		return nil, &dialErr{idx: idx, enter: enter, exit: exit}
+		return nil, &dialErr{idx: idx, enter: enter, exit: exit, timedOut: timedOut}
 	}
-	c := &fconn{n: n, id: idx, dialEnter: enter}
+	c := &fconn{n: n, id: idx, dialEnter: enter, peer: p.peer}
 	if n.withServer {
 		pc := fasthttputil.NewPipeConns()
 		c.Conn = pc.Conn1()
@@ -193,15 +259,18 @@ func (n *fakeNet) dial(addr string) (net.Conn, error) {
 // fconn is the client side of one fake connection.
 type fconn struct {
 	net.Conn
-	n         *fakeNet
-	id        int
-	dialEnter int64
-	closed    atomic.Int32
-	owner     atomic.Int64 // 0: not lent; otherwise request id (Do mode) or worker+1 (API mode)
-	pending   atomic.Int64 // response bytes written by the server and not yet read by the client
-	lends     atomic.Int32 // API mode: times handed out by AcquireConn
-	reqs      atomic.Int32 // Do mode: requests written
-	noJudge   atomic.Bool
+	n          *fakeNet
+	id         int
+	dialEnter  int64
+	closed     atomic.Int32
+	owner      atomic.Int64 // 0: not lent; otherwise request id (Do mode) or worker+1 (API mode)
+	pending    atomic.Int64 // response bytes written by the server and not yet read by the client
+	lends      atomic.Int32 // API mode: times handed out by AcquireConn
+	reqs       atomic.Int32 // Do mode: requests written
+	peer       int          // TLS histories: planned peer behaviour
+	tlsDone    atomic.Bool  // TLS histories: the server side completed the handshake
+	faultySent atomic.Bool  // the last response the server sent on this conn was a faulty one
+	noJudge    atomic.Bool
 }
 
 func (c *fconn) Close() error {
@@ -242,15 +311,22 @@ func requestID(p []byte) (int64, bool) {
 // client's 4 KiB write buffer). Ownership word: 0 -> request id here, back to 0
 // when the response has been read completely (see Read).
 func (c *fconn) Write(p []byte) (int, error) {
-	if c.n.withServer {
+	if c.n.withServer && !c.n.tls {
 		if c.closed.Load() != 0 {
 			c.n.violate("conn-used-after-close", fmt.Sprintf("request bytes written on conn%d after the client closed it", c.id), map[string]any{"conn": c.id, "bytes": string(p)})
 		}
 		id, ok := requestID(p)
 		if ok && bytes.HasPrefix(p, []byte("GET ")) && bytes.HasSuffix(p, []byte("\r\n\r\n")) {
-			if c.reqs.Add(1) > 1 {
+			ord := c.reqs.Add(1)
+			first := ord == 1
+			if !first {
 				c.n.reuse.Add(1)
 			}
+			st := c.n.now()
+			c.n.srvMu.Lock()
+			prev := c.n.reqRecs[id]
+			c.n.reqRecs[id] = reqRec{fc: c, stamp: st, first: first, ord: ord, n: prev.n + 1}
+			c.n.srvMu.Unlock()
 			if !c.noJudge.Load() && !c.owner.CompareAndSwap(0, id) {
 				c.n.violate("conn-lent-twice", fmt.Sprintf("conn%d carries request %d while request %d has not received its response yet", c.id, id, c.owner.Load()),
 					map[string]any{"conn": c.id, "second_request": id, "first_request": c.owner.Load()})
@@ -265,7 +341,7 @@ func (c *fconn) Write(p []byte) (int, error) {
 
 func (c *fconn) Read(p []byte) (int, error) {
 	k, err := c.Conn.Read(p)
-	if k > 0 && c.n.withServer {
+	if k > 0 && c.n.withServer && !c.n.tls {
 		if c.pending.Add(-int64(k)) == 0 {
 			c.owner.Store(0)
 		}
@@ -298,7 +374,15 @@ const (
 	actSilentClose
 	actDrop
 	actSlow
+	// faulty responses: the call ends with an error after the response started
+	actOversizeCL      // Content-Length body larger than MaxResponseBodySize
+	actOversizeChunked // chunked body larger than MaxResponseBodySize
+	actBadHead         // malformed status line
+	actBadChunk        // malformed chunk size
+	actStallBody       // head and half a body, then silence (needs a client read timeout)
 )
+
+var actNames = map[int]string{actOversizeCL: "oversize-cl", actOversizeChunked: "oversize-chunked", actBadHead: "bad-head", actBadChunk: "bad-chunk", actStallBody: "stalled-body"}
 
 func mix(x uint64) uint64 {
 	x += 0x9e3779b97f4a7c15
@@ -329,7 +413,48 @@ func (n *fakeNet) action(id int64, attempt int) (kind int, delay time.Duration) 
 	if (h>>40)%3 == 0 && kind != actSlow {
 		delay = 0
 	}
+	if n.errPct > 0 && int((h>>48)%100) < n.errPct {
+		var kinds []int
+		if n.maxBody > 0 {
+			kinds = append(kinds, actOversizeCL, actOversizeChunked)
+		}
+		kinds = append(kinds, actBadHead, actBadChunk)
+		if n.allowStall {
+			kinds = append(kinds, actStallBody)
+		}
+		kind = kinds[int((h>>56)%uint64(len(kinds)))]
+		if delay > 300*time.Microsecond {
+			delay = 0
+		}
+	}
 	return kind, delay
+}
+
+// response builds the bytes the server sends for a request.
+func (n *fakeNet) response(id int64, kind int) (resp string, faulty bool) {
+	body := strconv.FormatInt(id, 10)
+	switch kind {
+	case actOversizeCL:
+		b := body + "|" + string(bytes.Repeat([]byte("x"), n.maxBody*3+17))
+		return "HTTP/1.1 200 OK\r\nContent-Type: text/plain\r\nContent-Length: " + strconv.Itoa(len(b)) + "\r\n\r\n" + b, true
+	case actOversizeChunked:
+		chunk := string(bytes.Repeat([]byte("y"), n.maxBody+9))
+		hx := strconv.FormatInt(int64(len(chunk)), 16)
+		first := body + "|"
+		return "HTTP/1.1 200 OK\r\nContent-Type: text/plain\r\nTransfer-Encoding: chunked\r\n\r\n" +
+			strconv.FormatInt(int64(len(first)), 16) + "\r\n" + first + "\r\n" + hx + "\r\n" + chunk + "\r\n" + hx + "\r\n" + chunk + "\r\n0\r\n\r\n", true
+	case actBadHead:
+		return "HTTP/1.1 2x0 what\r\nContent-Length: 3\r\n\r\nabc", true
+	case actBadChunk:
+		return "HTTP/1.1 200 OK\r\nContent-Type: text/plain\r\nTransfer-Encoding: chunked\r\n\r\n2\r\nab\r\nzz\r\nboom\r\n0\r\n\r\n", true
+	case actStallBody:
+		return "HTTP/1.1 200 OK\r\nContent-Type: text/plain\r\nContent-Length: 40\r\n\r\n" + body + "|half", true
+	}
+	extra := ""
+	if kind == actHdrClose {
+		extra = "Connection: close\r\n"
+	}
+	return "HTTP/1.1 200 OK\r\nContent-Type: text/plain\r\nContent-Length: " + strconv.Itoa(len(body)) + "\r\n" + extra + "\r\n" + body, false
 }
 
 func readRequestID(br *bufio.Reader) (int64, error) {
@@ -355,9 +480,29 @@ func readRequestID(br *bufio.Reader) (int64, error) {
 	}
 }
 
-func (n *fakeNet) serve(fc *fconn, s net.Conn) {
+func (n *fakeNet) serve(fc *fconn, raw net.Conn) {
 	defer n.srvWG.Done()
-	defer s.Close()
+	defer raw.Close()
+	var s net.Conn = raw
+	if n.tls {
+		switch fc.peer {
+		case peerStall:
+			io.Copy(io.Discard, raw) // until the client gives up and closes
+			return
+		case peerGarbage:
+			raw.Write([]byte("HTTP/1.1 400 Bad Request\r\nConnection: close\r\n\r\n"))
+			io.Copy(io.Discard, raw)
+			return
+		case peerDrop:
+			return
+		}
+		ts := tls.Server(raw, serverTLSConfig())
+		if err := ts.Handshake(); err != nil {
+			return
+		}
+		fc.tlsDone.Store(true)
+		s = ts
+	}
 	br := bufio.NewReaderSize(s, 4096)
 	for {
 		id, err := readRequestID(br)
@@ -376,18 +521,47 @@ func (n *fakeNet) serve(fc *fconn, s net.Conn) {
 		if kind == actDrop {
 			return
 		}
-		body := strconv.FormatInt(id, 10)
-		extra := ""
-		if kind == actHdrClose {
-			extra = "Connection: close\r\n"
+		resp, faulty := n.response(id, kind)
+		fc.faultySent.Store(faulty)
+		if faulty {
+			n.srvMu.Lock()
+			n.faulty[id] = kind
+			n.srvMu.Unlock()
 		}
-		resp := "HTTP/1.1 200 OK\r\nContent-Type: text/plain\r\nContent-Length: " + strconv.Itoa(len(body)) + "\r\n" + extra + "\r\n" + body
 		fc.pending.Add(int64(len(resp)))
 		if _, err := s.Write([]byte(resp)); err != nil {
+			return
+		}
+		if kind == actStallBody || kind == actBadHead || kind == actBadChunk {
+			// nothing more will come; leave only when the client closes
+			io.Copy(io.Discard, br)
 			return
 		}
 		if kind == actHdrClose || kind == actSilentClose {
 			return
 		}
 	}
+}
+
+var (
+	srvTLSOnce sync.Once
+	srvTLSCfg  *tls.Config
+)
+
+// serverTLSConfig returns the fake peer's run-time generated self-signed identity.
+func serverTLSConfig() *tls.Config {
+	srvTLSOnce.Do(func() {
+		key, err := ecdsa.GenerateKey(elliptic.P256(), rand.Reader)
+		if err != nil {
+			panic(err)
+		}
+		tmpl := &x509.Certificate{SerialNumber: big.NewInt(18), Subject: pkix.Name{CommonName: "c18.test"}, DNSNames: []string{"c18.test"},
+			NotBefore: time.Now().Add(-time.Hour), NotAfter: time.Now().Add(24 * time.Hour), KeyUsage: x509.KeyUsageDigitalSignature, ExtKeyUsage: []x509.ExtKeyUsage{x509.ExtKeyUsageServerAuth}}
+		der, err := x509.CreateCertificate(rand.Reader, tmpl, tmpl, &key.PublicKey, key)
+		if err != nil {
+			panic(err)
+		}
+		srvTLSCfg = &tls.Config{Certificates: []tls.Certificate{{Certificate: [][]byte{der}, PrivateKey: key}}}
+	})
+	return srvTLSCfg
 }
